@@ -309,9 +309,8 @@ pub fn minimise(
     invariant: &str,
     known: &KnownFindings,
 ) -> (Value, usize, RunOut) {
-    let mut stats = Stats::default();
     let mut best = scenario.clone();
-    let mut best_out = execute(def, prop, &best, &mut stats, known, false);
+    let mut best_out = execute_isolated(def, prop, &best, known, false);
     let mut execs = 1usize;
     'outer: loop {
         let cands = (def.shrink)(prop, &best);
@@ -323,7 +322,7 @@ pub fn minimise(
                 continue;
             }
             execs += 1;
-            let out = execute(def, prop, &c, &mut stats, known, false);
+            let out = execute_isolated(def, prop, &c, known, false);
             if let Some(v) = &out.violation {
                 if v.invariant == invariant {
                     best = c;
@@ -349,19 +348,11 @@ pub fn report_violation(
     let rs = rng::run_seed(a.seed, i);
     let sc = (def.generate)(&a.prop, rs, a.tier);
     let is_crash = v.invariant == "process-death";
-    let (min_sc, execs, out) = if is_crash {
-        (sc.clone(), 0, RunOut { digest: 0, nontrivial: false, violation: Some(v.clone()), known_hits: vec![], trace: None })
-    } else {
-        minimise(def, &a.prop, &sc, &v.invariant, &known)
-    };
+    // Candidates run in forked children, so a scenario that kills its process can be minimised too.
+    let (min_sc, execs, out) = minimise(def, &a.prop, &sc, &v.invariant, &known);
     let mv = out.violation.clone().unwrap_or_else(|| v.clone());
     let write = |scenario: &Value, minimised: bool, viol: &Violation, digest: u64, suffix: &str| -> PathBuf {
-        let mut stats = Stats::default();
-        let traced = if is_crash {
-            None
-        } else {
-            execute(def, &a.prop, scenario, &mut stats, &known, true).trace
-        };
+        let traced = execute_isolated(def, &a.prop, scenario, &known, true).trace;
         let rf = ReplayFile {
             property: a.prop.clone(),
             engine: def.name.to_string(),
@@ -390,8 +381,7 @@ pub fn report_violation(
         (min_path, ok, mv)
     } else {
         eprintln!("harness defect: minimised replay did not reproduce in a fresh process; reporting the unminimised scenario");
-        let mut stats = Stats::default();
-        let o = execute(def, &a.prop, &sc, &mut stats, &known, false);
+        let o = execute_isolated(def, &a.prop, &sc, &known, false);
         let p = write(&sc, false, v, o.digest, "-full");
         let ok2 = replay_in_fresh_process(&p, &v.invariant);
         (p, ok2, v.clone())
